@@ -294,7 +294,10 @@ func candidates(sc *Scenario) []*Scenario {
 				add(func(c *Scenario) bool { c.Policies[i].MaxDuration = 0; return true })
 			}
 			if p.ReturnLast || p.MaxAttempts {
-				add(func(c *Scenario) bool { c.Policies[i].ReturnLast, c.Policies[i].MaxAttempts = false, false; return true })
+				add(func(c *Scenario) bool {
+					c.Policies[i].ReturnLast, c.Policies[i].MaxAttempts = false, false
+					return true
+				})
 			}
 		}
 		if p.Kind == KHedge && p.MaxHedges > 1 {
